@@ -32,8 +32,21 @@
 //! permuted / perturbed values, refused-then-accepted calls; an A-B-A re-run of the previous case after every case), huge
 //! operands (16 385 .. 140 000 elements, equal shapes and stretched), every axis length 1..300, the SAME OBJECT on both sides
 //! (`a.op(&a)` with NaN / inf / -0.0 / limits inside), ranks 5..8, f64::MAX and neighbours.
+//! Part 3: a harness-native coordinate formula (`opinion` / `src_index`: result shape + the two / three source positions of every
+//! result position, plain Rust, linear) is compared with the FULL model answer on every positional case of the run (counted in
+//! the `oracle_report` lines); giant operands (`g` lines: 2^20 < result elements <= 2.2 million, one 2^24+3-element case; named by
+//! shape and fill rule, built here, never written out) are judged by model shape + that formula + the native scalar kernel, in
+//! place; value relations random data never has (constant operands 0 / 1 / -1 / 2 / NaN / -0.0 / limits on either or both sides,
+//! constant but for the last element, +0.0 / -0.0 mixtures, operands equal under == but not bit-identical).
 use arrharness::*;
 use std::cell::RefCell;
+use std::sync::atomic::{AtomicUsize, Ordering};
+
+/// how often the native coordinate formula was compared with the full model answer / had no opinion; giant cases judged through it
+static ORACLE_CHECKED: AtomicUsize = AtomicUsize::new(0);
+static ORACLE_SILENT: AtomicUsize = AtomicUsize::new(0);
+static GIANT: AtomicUsize = AtomicUsize::new(0);
+static GIANT_SINGLE: AtomicUsize = AtomicUsize::new(0);
 
 const NAN_BITS: u64 = 0x7ff8_0000_0000_0000;
 
@@ -367,6 +380,75 @@ fn bshape(s: &[usize], t: &[usize]) -> Option<Vec<usize>> {
     Some(r)
 }
 
+// ------------------------------------------------------------------ the harness-native coordinate formula (reference for giant cases)
+
+/// per RESULT axis: the stride of that axis in the flat data of a source of shape `src` (right-aligned with the result); 0 where the
+/// source has no such axis or a unit axis there (the stretched axes)
+fn src_strides(src: &[usize], res: &[usize]) -> Vec<usize> {
+    let off = res.len() - src.len();
+    let mut st = vec![0; res.len()];
+    let mut acc = 1usize;
+    for k in (0..src.len()).rev() { if src[k] != 1 { st[off + k] = acc; } acc *= src[k]; }
+    st
+}
+/// the flat source position behind flat result position `p`: coordinate of `p` in the result, times the source strides
+fn src_index(res: &[usize], st: &[usize], mut p: usize) -> usize {
+    let mut i = 0;
+    for k in (0..res.len()).rev() { i += (p % res[k]) * st[k]; p /= res[k]; }
+    i
+}
+/// what the formula says about a call: the result shape and the strides of every operand, a refusal, or nothing (zero-length axes
+/// and the equal-count region of `broadcast_to`, where the data is reshaped instead of stretched)
+enum Opin { Ok(Vec<usize>, Vec<Vec<usize>>), Err, Silent }
+/// `shapes` = receiver, argument (clip: receiver, lower, upper bound); `divisor_zero` = the argument array holds a zero
+fn opinion(pat: &str, shapes: &[&[usize]], divisor_zero: bool) -> Opin {
+    if matches!(pat, "G" | "GM") && divisor_zero { return Opin::Err; }
+    if shapes.iter().any(|s| s.iter().any(|&d| d == 0)) { return Opin::Silent; }
+    match pat {
+        "B" | "G" | "GM" | "IB" => match bshape(shapes[0], shapes[1]) {
+            None => Opin::Err,
+            Some(r) => { let st = vec![src_strides(shapes[0], &r), src_strides(shapes[1], &r)]; Opin::Ok(r, st) }
+        },
+        // receiver-shaped: every argument must stretch to the receiver's shape (first refusal wins; a refusal further right wins
+        // over an equal-count reshape further left, whatever that one gives)
+        _ => {
+            let recv = shapes[0];
+            let mut silent = false;
+            for s in &shapes[1..] {
+                if stretchable(s, recv) { continue; }
+                if s.iter().product::<usize>() == recv.iter().product::<usize>() { silent = true; } else { return Opin::Err; }
+            }
+            if silent { return Opin::Silent; }
+            Opin::Ok(recv.to_vec(), shapes.iter().map(|s| src_strides(s, recv)).collect())
+        }
+    }
+}
+/// chain model -> formula -> crate: the formula against the full model answer (shape and every source index).  `Some` = they differ,
+/// which is a defect of the harness (or of the model), never an observation about the crate
+fn oracle_vs_model(orc: &Opin, expected: &str, parsed: Option<&(Vec<usize>, Vec<Vec<usize>>)>) -> Option<String> {
+    match (orc, class_of(expected)) {
+        (Opin::Silent, _) | (_, "panic") => { ORACLE_SILENT.fetch_add(1, Ordering::Relaxed); None }
+        (Opin::Err, "err") => { ORACLE_CHECKED.fetch_add(1, Ordering::Relaxed); None }
+        (Opin::Ok(shape, st), "ok") => {
+            let Some((eshape, idx)) = parsed else { return Some("unparsable model answer".into()) };
+            if shape != eshape { return Some(format!("formula shape {:?}, model shape {:?}", shape, eshape)); }
+            let n: usize = shape.iter().product();
+            if idx.len() != n { return Some(format!("formula has {n} positions, the model {}", idx.len())); }
+            for (p, src) in idx.iter().enumerate() {
+                if src.len() != st.len() { return Some(format!("position {p}: {} sources in the model answer, {} operands", src.len(), st.len())); }
+                for (o, s) in st.iter().enumerate() {
+                    let i = src_index(shape, s, p);
+                    if i != src[o] { return Some(format!("position {p}, operand {o}: formula says flat source index {i}, the model {}", src[o])); }
+                }
+            }
+            ORACLE_CHECKED.fetch_add(1, Ordering::Relaxed);
+            None
+        }
+        (Opin::Err, _) => Some("the formula says refusal, the model accepts".into()),
+        (Opin::Ok(..), _) => Some("the formula accepts, the model refuses".into()),
+    }
+}
+
 // ------------------------------------------------------------------ exec
 
 enum Obs<N> { Ok(Vec<usize>, Vec<N>, bool), Err(String), Panic }
@@ -384,14 +466,19 @@ fn obs_text<N: Elem>(o: &Obs<N>) -> String {
 }
 
 /// compare an observed result with the model's index answer, position by position
-fn check_positions<N: Elem>(obs: &Obs<N>, expected: &str, kernel: &dyn Fn(&[usize]) -> Result<Vec<(&'static str, N)>, String>) -> Verdict {
+fn check_positions<N: Elem>(obs: &Obs<N>, expected: &str, orc: &Opin, kernel: &dyn Fn(&[usize]) -> Result<Vec<(&'static str, N)>, String>) -> Verdict {
+    let parsed = if class_of(expected) == "ok" { parse_expected(expected) } else { None };
+    if let Some(d) = oracle_vs_model(orc, expected, parsed.as_ref()) {
+        return Verdict::Mismatch { observed: obs_text(obs), detail: format!("ORACLE-VS-MODEL the harness-native coordinate formula and the model (`{}`) disagree: {d} (harness defect: the reference for the giant cases is not usable)", truncate(expected, 300)) };
+    }
     match (obs, class_of(expected)) {
         (Obs::Err(e), "err") => Verdict::Match(format!("err {e}")),
         (Obs::Panic, "panic") => Verdict::Match("panic".into()),
         (Obs::Ok(shape, vals, cons), "ok") => {
-            let Some((eshape, idx)) = parse_expected(expected) else { return Verdict::Mismatch { observed: obs_text(obs), detail: "harness: unparsable model answer".into() } };
+            let Some((eshape, idx)) = parsed else { return Verdict::Mismatch { observed: obs_text(obs), detail: "harness: unparsable model answer".into() } };
             if !cons { return Verdict::Mismatch { observed: obs_text(obs), detail: "result array is inconsistent (C01 monitor)".into() }; }
             if *shape != eshape { return Verdict::Mismatch { observed: obs_text(obs), detail: format!("shape {:?}, the model says {:?}", shape, eshape) }; }
+            let idx = &idx;
             if vals.len() != idx.len() { return Verdict::Mismatch { observed: obs_text(obs), detail: format!("{} elements, the model says {}", vals.len(), idx.len()) }; }
             for (p, src) in idx.iter().enumerate() {
                 match kernel(src) {
@@ -458,7 +545,8 @@ fn run_op<N: Elem>(op: &str, pat: &str, a_s: &str, b_s: &str, expected: &str) ->
     let open = matches!(pat, "R" | "RA") && !stretchable(&pb.0, &pa.0) && pa.1.len() == pb.1.len();
     let (va, vb) = (pa.1.clone(), pb.1.clone());
     let opn = op.to_string();
-    let v = check_positions(&obs, expected, &move |src: &[usize]| {
+    let orc = opinion(pat, &[&pa.0, &pb.0], pb.1.iter().any(|y| y.f() == 0.0));
+    let v = check_positions(&obs, expected, &orc, &move |src: &[usize]| {
         let (x, y) = (*va.get(src[0]).ok_or("source index out of range")?, *vb.get(src[1]).ok_or("source index out of range")?);
         let mut w = vec![];
         if let Some(n) = native(&opn, x, y) { w.push(("native", n)); }
@@ -479,7 +567,8 @@ fn run_clip<N: Elem>(a_s: &str, lo_s: &str, hi_s: &str, expected: &str) -> Optio
     let on_err = observe(|| Some(clip_recv(&a, &lo, &hi, Recv::ErrRecv)))?;
     let open = (!stretchable(&pl.0, &pa.0) && pa.1.len() == pl.1.len()) || (!stretchable(&ph.0, &pa.0) && pa.1.len() == ph.1.len());
     let (va, vl, vh) = (pa.1.clone(), pl.1.clone(), ph.1.clone());
-    let v = check_positions(&obs, expected, &move |src: &[usize]| {
+    let orc = opinion("R3", &[&pa.0, &pl.0, &ph.0], false);
+    let v = check_positions(&obs, expected, &orc, &move |src: &[usize]| {
         let (x, l, h) = (*va.get(src[0]).ok_or("index")?, *vl.get(src[1]).ok_or("index")?, *vh.get(src[2]).ok_or("index")?);
         let nat = if x < l { l } else if x > h { h } else { x };
         let one = |v: N| Array::new(vec![v], vec![1]).unwrap();
@@ -526,6 +615,146 @@ fn run_comm<N: Elem>(op: &str, pat: &str, a_s: &str, b_s: &str, expected: &str) 
         v => v })
 }
 
+// ------------------------------------------------------------------ giant operands (`g` lines)
+
+fn mix64(k: u64, salt: u64) -> u64 {
+    let mut z = k.wrapping_add(salt.wrapping_mul(0x9E3779B97F4A7C15)).wrapping_add(0x1234_5678_9ABC_DEF1);
+    z = (z ^ (z >> 30)).wrapping_mul(0xBF58476D1CE4E5B9);
+    z = (z ^ (z >> 27)).wrapping_mul(0x94D049BB133111EB);
+    z ^ (z >> 31)
+}
+fn is_float<N: Elem>() -> bool { N::t(0.5).f() == 0.5 }
+fn is_signed<N: Elem>() -> bool { N::t(-1.0).f() < 0.0 }
+/// element k of the varied fill: a value that changes from position to position with a prime period (113 for one-byte, 30 011 for
+/// two-byte, 1 000 003 for wider element types; quarter steps for floats), every 509th element one of the edge values of the pool
+fn gval<N: Elem>(k: usize, salt: u64, d: Dom, pool: &[N]) -> N {
+    if k % 509 == 7 && !pool.is_empty() { return pool[(k / 509 + salt as usize) % pool.len()]; }
+    let m: u64 = match std::mem::size_of::<N>() { 1 => 113, 2 => 30011, _ => 1_000_003 };
+    let x = ((k as u64).wrapping_mul(48271).wrapping_add(salt.wrapping_mul(97))) % m;
+    let step = if is_float::<N>() { 0.375 } else { 1.0 };
+    match d {
+        Dom::General => if is_signed::<N>() { N::t((x as f64 - (m / 2) as f64) * step) } else { N::t(x as f64) },
+        Dom::Divisor => N::t((x as f64 + 1.0) * step),
+        Dom::Shift => N::t((x % 8) as f64),
+        Dom::Exp => N::t((x % 16) as f64 - 5.0),
+        Dom::Small => if is_signed::<N>() { N::t((x % 91) as f64 - 30.0) } else { N::t((x % 61) as f64) },
+    }
+}
+/// the flat data of an operand named by a fill rule: `v<salt>` varied; `c<tok>` constant; `l<tok>` constant but for the LAST element;
+/// `z<k><p|n>` varied with a zero (+0.0 / -0.0) at flat position k; `m<salt>` a mixture of +0.0 and -0.0 (integers: zeros)
+fn gfill<N: Elem>(spec: &str, d: Dom, n: usize) -> Option<Vec<N>> {
+    if spec.is_empty() || !spec.is_char_boundary(1) { return None; }
+    let (kind, rest) = spec.split_at(1);
+    let pool = N::pool_y(d);
+    Some(match kind {
+        "v" => { let salt: u64 = rest.parse().ok()?; (0..n).map(|k| gval::<N>(k, salt, d, &pool)).collect() }
+        "c" => vec![N::parse_tok(rest); n],
+        "l" => { let mut v = vec![N::parse_tok(rest); n]; if n > 0 { v[n - 1] = gval::<N>(n - 1, 3, d, &[]); } v }
+        "z" => {
+            let neg = rest.ends_with('n');
+            let k: usize = rest[..rest.len().checked_sub(1)?].parse().ok()?;
+            let mut v: Vec<N> = (0..n).map(|k| gval::<N>(k, 0, d, &pool)).collect();
+            *v.get_mut(k)? = N::t(if neg { -0.0 } else { 0.0 });
+            v
+        }
+        "m" => { let salt: u64 = rest.parse().ok()?; (0..n).map(|k| N::t(if mix64(k as u64, salt) & 1 == 0 { 0.0 } else { -0.0 })).collect() }
+        _ => return None,
+    })
+}
+/// the positions of a giant result at which the one-element-array kernel is consulted as well (the native formula: everywhere)
+fn sampled(p: usize, n: usize) -> bool { p < 8 || p + 8 >= n || p % 65521 == 0 }
+fn coord_of(shape: &[usize], mut p: usize) -> Vec<usize> { let mut c = vec![0; shape.len()]; for k in (0..shape.len()).rev() { c[k] = p % shape[k]; p /= shape[k]; } c }
+fn brief<N: Elem>(o: &Obs<N>) -> String {
+    match o { Obs::Ok(s, v, _) => format!("ok shape {} ({} elements; first: {})", show_list(s), v.len(), v.iter().take(4).map(|x| x.tok()).collect::<Vec<_>>().join(",")), Obs::Err(e) => format!("err {e}"), Obs::Panic => "panic".into() }
+}
+/// first position at which two giant results differ — compared in place, nothing is formatted
+fn first_diff<N: Elem>(x: &Obs<N>, y: &Obs<N>) -> Option<String> {
+    match (x, y) {
+        (Obs::Ok(s1, v1, c1), Obs::Ok(s2, v2, c2)) => {
+            if s1 != s2 { return Some(format!("shapes {:?} vs {:?}", s1, s2)); }
+            if c1 != c2 || v1.len() != v2.len() { return Some(format!("{} vs {} elements", v1.len(), v2.len())); }
+            v1.iter().zip(v2).position(|(a, b)| a.key() != b.key()).map(|p| format!("first difference at flat position {p}: {} vs {}", v1[p].tok(), v2[p].tok()))
+        }
+        (Obs::Err(_), Obs::Err(_)) | (Obs::Panic, Obs::Panic) => None,
+        _ => Some(format!("`{}` vs `{}`", brief(x), brief(y))),
+    }
+}
+/// judge a giant observation: outcome class and shape against the model, the values IN PLACE against the native coordinate formula
+/// and the native scalar kernel (every position) and the one-element-array kernel (sampled positions)
+fn judge_giant<N: Elem>(obs: &Obs<N>, expected: &str, orc: &Opin, ops: &[&Vec<N>], kernel: &dyn Fn(&[N]) -> Option<N>, one: &dyn Fn(&[N]) -> Result<N, String>) -> Verdict {
+    // model vs formula: outcome class and shape
+    let eshape = expected.strip_prefix("ok shape ").map(parse_usize_list);
+    let agree = match (orc, &eshape) { (Opin::Ok(s, _), Some(e)) => s == e, (Opin::Err, None) => class_of(expected) == "err", _ => false };
+    if !agree { return Verdict::Mismatch { observed: brief(obs), detail: format!("ORACLE-VS-MODEL the harness-native coordinate formula and the model (`{expected}`) disagree about outcome / result shape of a giant case (harness defect)") }; }
+    GIANT.fetch_add(1, Ordering::Relaxed);
+    match (obs, orc) {
+        (Obs::Err(e), Opin::Err) => Verdict::Match(format!("err {e}")),
+        (Obs::Ok(shape, vals, cons), Opin::Ok(rs, st)) => {
+            if !cons { return Verdict::Mismatch { observed: brief(obs), detail: "result array is inconsistent (C01 monitor)".into() }; }
+            if shape != rs { return Verdict::Mismatch { observed: brief(obs), detail: format!("shape {:?}, the model says {:?}", shape, rs) }; }
+            let n: usize = rs.iter().product();
+            if vals.len() != n { return Verdict::Mismatch { observed: brief(obs), detail: format!("{} elements, the result shape has {n}", vals.len()) }; }
+            let mut src = vec![0usize; st.len()];
+            let mut xs: Vec<N> = vec![N::z(); st.len()];
+            for p in 0..n {
+                for o in 0..st.len() { src[o] = src_index(rs, &st[o], p); xs[o] = ops[o][src[o]]; }
+                let Some(w) = kernel(&xs) else { return Verdict::Mismatch { observed: brief(obs), detail: "harness: no native kernel for this operation".into() } };
+                if w.key() != vals[p].key() {
+                    return Verdict::Mismatch { observed: brief(obs), detail: format!("flat position {p} (coordinate {:?}): got {} but the native kernel on the operand elements at flat indices {:?} ({}) gives {} (sources by the harness-native coordinate formula, validated against the full model answer on the smaller cases of this run; model shape `{expected}`)",
+                        coord_of(rs, p), vals[p].tok(), src, xs.iter().map(|x| x.tok()).collect::<Vec<_>>().join(" , "), w.tok()) };
+                }
+                if sampled(p, n) {
+                    GIANT_SINGLE.fetch_add(1, Ordering::Relaxed);
+                    match one(&xs) {
+                        Ok(w1) if w1.key() == vals[p].key() => {}
+                        Ok(w1) => return Verdict::Mismatch { observed: brief(obs), detail: format!("flat position {p}: got {} but the same operation on the one-element arrays of the sources {:?} gives {}", vals[p].tok(), src, w1.tok()) },
+                        Err(why) => return Verdict::Mismatch { observed: brief(obs), detail: format!("flat position {p}: the one-element-array kernel at sources {:?} failed: {why}", src) },
+                    }
+                }
+            }
+            Verdict::Match(format!("{expected} (values as the harness-native reference)"))
+        }
+        _ => Verdict::Mismatch { observed: brief(obs), detail: format!("model says `{expected}`") },
+    }
+}
+/// chained on every third giant case (the line decides), always an `Err(_)` receiver
+fn giant_receivers<N: Elem>(line_hash: u64, obs: &Obs<N>, v: Verdict, chained: &dyn Fn() -> Option<Obs<N>>, on_err: &dyn Fn() -> Option<Obs<N>>) -> Option<Verdict> {
+    if matches!(v, Verdict::Mismatch { .. }) { return Some(v); }
+    if line_hash % 3 == 0 {
+        let c = chained()?;
+        if let Some(d) = first_diff(obs, &c) { return Some(Verdict::Mismatch { observed: format!("RECEIVER-DIVERGENCE chained: {}", brief(&c)), detail: format!("the call on `Ok(array)` differs from the plain call (`{}`): {d}", brief(obs)) }); }
+    }
+    let e = on_err()?;
+    if !matches!(e, Obs::Err(_)) { return Some(Verdict::Mismatch { observed: format!("RECEIVER-DIVERGENCE on Err(_): {}", brief(&e)), detail: "the call on an `Err(_)` receiver must return the error".into() }); }
+    Some(v)
+}
+fn run_g<N: Elem>(op: &str, pat: &str, sa_s: &str, sb_s: &str, fa: &str, fb: &str, expected: &str) -> Option<Verdict> {
+    let oi = info(op)?;
+    if oi.pat != pat { return None; }
+    let (sa, sb) = (parse_usize_list(sa_s), parse_usize_list(sb_s));
+    let (na, nb): (usize, usize) = (sa.iter().product(), sb.iter().product());
+    let da = if oi.dom == Dom::Small { Dom::Small } else { Dom::General };
+    let (va, vb) = (gfill::<N>(fa, da, na)?, gfill::<N>(fb, oi.dom, nb)?);
+    let orc = opinion(pat, &[&sa, &sb], vb.iter().any(|y| y.f() == 0.0));
+    let (a, b) = (Array::new(va.clone(), sa.clone()).ok()?, Array::new(vb.clone(), sb.clone()).ok()?);
+    let obs = observe(|| call(op, &a, &b))?;
+    let v = judge_giant(&obs, expected, &orc, &[&va, &vb], &|x: &[N]| native(op, x[0], x[1]), &|x: &[N]| single(op, x[0], x[1]));
+    giant_receivers(hash_str(&format!("{op}{sa_s}{sb_s}{fa}{fb}")), &obs, v, &|| observe(|| call_recv(op, &a, &b, Recv::Chained)), &|| observe(|| call_recv(op, &a, &b, Recv::ErrRecv)))
+}
+fn run_g_clip<N: Elem>(sa_s: &str, sl_s: &str, sh_s: &str, fa: &str, fl: &str, fh: &str, expected: &str) -> Option<Verdict> {
+    let (sa, sl, sh) = (parse_usize_list(sa_s), parse_usize_list(sl_s), parse_usize_list(sh_s));
+    let cnt = |s: &Vec<usize>| s.iter().product::<usize>();
+    let (va, vl, vh) = (gfill::<N>(fa, Dom::General, cnt(&sa))?, gfill::<N>(fl, Dom::General, cnt(&sl))?, gfill::<N>(fh, Dom::General, cnt(&sh))?);
+    let orc = opinion("R3", &[&sa, &sl, &sh], false);
+    let (a, lo, hi) = (Array::new(va.clone(), sa.clone()).ok()?, Array::new(vl.clone(), sl.clone()).ok()?, Array::new(vh.clone(), sh.clone()).ok()?);
+    let obs = observe(|| Some(clip_recv(&a, &lo, &hi, Recv::Plain)))?;
+    let one = |v: N| Array::new(vec![v], vec![1]).unwrap();
+    let v = judge_giant(&obs, expected, &orc, &[&va, &vl, &vh], &|x: &[N]| Some(if x[0] < x[1] { x[1] } else if x[0] > x[2] { x[2] } else { x[0] }),
+        &|x: &[N]| match std::panic::catch_unwind(std::panic::AssertUnwindSafe(|| one(x[0]).clip(Some(one(x[1])), Some(one(x[2]))))) {
+            Ok(Ok(r)) => Ok(r.get_elements().unwrap()[0]), Ok(Err(e)) => Err(format!("err {}", err_name(&e))), Err(_) => Err("panic".into()) });
+    giant_receivers(hash_str(&format!("clip{sa_s}{sl_s}{sh_s}{fa}{fl}{fh}")), &obs, v, &|| observe(|| Some(clip_recv(&a, &lo, &hi, Recv::Chained))), &|| observe(|| Some(clip_recv(&a, &lo, &hi, Recv::ErrRecv))))
+}
+
 /// the plain-receiver answer of a case as text (element bits), nothing else — for the A-B-A re-run
 fn plain_obs<N: Elem>(kind: &str, op: &str, x: &str, y: &str, z: &str) -> Option<String> {
     match kind {
@@ -569,7 +798,17 @@ thread_local! {
 
 fn exec(op: &str, args: &[&str], expected: &str) -> Option<Verdict> {
     if op == "seq" { PREV.with(|p| *p.borrow_mut() = None); return exec_seq(args, expected); }
+    if op == "oracle_report" {
+        let (n, silent, giant, single) = (ORACLE_CHECKED.load(Ordering::Relaxed), ORACLE_SILENT.load(Ordering::Relaxed), GIANT.load(Ordering::Relaxed), GIANT_SINGLE.load(Ordering::Relaxed));
+        let text = format!("ok report: so far the harness-native coordinate formula agreed with the full model answer (shape and every source index) on {n} cases (no opinion on {silent}); {giant} giant cases (> 2^20 result elements) judged through it, the one-element-array kernel consulted at {single} of their positions");
+        // the last line of a run: the chain model -> formula -> crate must really have been exercised
+        if args.first() == Some(&"final") && n < 100_000 { return Some(Verdict::Mismatch { observed: text, detail: "the formula was compared with the model on fewer than 100000 cases".into() }); }
+        return Some(Verdict::Match(text));
+    }
+    // (a giant case is a B of the A-B-A discipline like any other: the previous small case is re-run after it)
+    let t0 = std::time::Instant::now();
     let mut v = exec_single(op, args, expected)?;
+    if op == "g" && std::env::var_os("C04_TIME").is_some() { eprintln!("{:.3}s  g {}", t0.elapsed().as_secs_f64(), args.join(" ")); }
     // A-B-A: after this case (B) the previous case (A) is executed again and must give what it gave before B
     if let Some((pop, pargs, ptext)) = PREV.with(|p| p.borrow_mut().take()) {
         let pa: Vec<&str> = pargs.iter().map(String::as_str).collect();
@@ -592,6 +831,10 @@ fn exec_single(op: &str, args: &[&str], expected: &str) -> Option<Verdict> {
     macro_rules! by_type { ($ty:expr, $f:ident, $($arg:expr),*) => { match $ty { "i32" => $f::<i32>($($arg),*), "i64" => $f::<i64>($($arg),*), "u8" => $f::<u8>($($arg),*), "f64" => $f::<f64>($($arg),*),
         "i8" => $f::<i8>($($arg),*), "i16" => $f::<i16>($($arg),*), "u16" => $f::<u16>($($arg),*), "u32" => $f::<u32>($($arg),*), "u64" => $f::<u64>($($arg),*), "f32" => $f::<f32>($($arg),*), _ => None } } }
     match op {
+        "g" => match args.first() {
+            Some(&"clip") => { if args.len() != 9 || args[1] != "R3" { return None; } by_type!(args[2], run_g_clip, args[3], args[4], args[5], args[6], args[7], args[8], expected) }
+            _ => { if args.len() != 7 { return None; } by_type!(args[2], run_g, args[0], args[1], args[3], args[4], args[5], args[6], expected) }
+        },
         "comm" => { if args.len() != 5 { return None; } by_type!(args[2], run_comm, args[0], args[1], args[3], args[4], expected) }
         "clip" => { if args.len() != 5 || args[0] != "R3" { return None; } by_type!(args[1], run_clip, args[2], args[3], args[4], expected) }
         _ => { if args.len() != 4 { return None; } by_type!(args[1], run_op, op, args[0], args[2], args[3], expected) }
@@ -767,6 +1010,18 @@ fn derive_shape(rng: &mut Rng, base: &[usize]) -> Vec<usize> {
 }
 
 fn gen(tier: &str, seed: u64, out: &mut dyn FnMut(String)) {
+    let mut buf: Vec<String> = vec![];
+    gen_all(tier, seed, &mut |l| buf.push(l));
+    // two bookkeeping lines: how often the harness-native coordinate formula was compared with the model.  The first one sits where
+    // the summary of lib.rs takes its last sample (so that the count shows up in the evidence), the second one closes the run.
+    let stride = ((buf.len() + 2) / 12).max(1);
+    let at = (11 * stride).min(buf.len());
+    buf.insert(at, "oracle_report".to_string());
+    buf.push("oracle_report final".to_string());
+    for l in buf { out(l); }
+}
+
+fn gen_all(tier: &str, seed: u64, out: &mut dyn FnMut(String)) {
     let thorough = tier == "thorough";
     // (i) corpus of past failures
     for l in [
@@ -991,6 +1246,7 @@ fn gen(tier: &str, seed: u64, out: &mut dyn FnMut(String)) {
     }
 
     gen_part2(thorough, seed, out);
+    gen_part3(thorough, seed, out);
 }
 
 /// FRAMEWORK.md robustness streams, part 2: hidden state, huge sizes, exact lengths, aliasing, high ranks, edge values
@@ -1186,11 +1442,213 @@ fn gen_part2(thorough: bool, seed: u64, out: &mut dyn FnMut(String)) {
     }
 }
 
+// ------------------------------------------------------------------ FRAMEWORK.md robustness streams, part 3
+
+/// a giant case line: the operands are named by shape and fill rule
+fn gline(oi: &OpInfo, ty: &str, sa: &[usize], sb: &[usize], fa: &str, fb: &str) -> String {
+    format!("g {} {} {} {} {} {} {}", oi.name, oi.pat, ty, show_list(sa), show_list(sb), fa, fb)
+}
+/// (receiver, argument) shapes derived from a giant target: the argument lacks the leading axis / has a unit first, middle or last
+/// axis / is one element; `both_ways`: the receiver is the stretched one, both are stretched (complementary unit axes)
+fn giant_pairs(t: &[usize], both_ways: bool) -> Vec<(Vec<usize>, Vec<usize>)> {
+    let r = t.len();
+    let unit = |k: usize| { let mut s = t.to_vec(); s[k] = 1; s };
+    let mut out = vec![(t.to_vec(), vec![1])];
+    if r > 1 {
+        out.push((t.to_vec(), t[1..].to_vec()));
+        out.push((t.to_vec(), unit(0)));
+        out.push((t.to_vec(), unit(r - 1)));
+        if r > 2 { out.push((t.to_vec(), unit(r / 2))); out.push((t.to_vec(), t[r - 1..].to_vec())); }
+        if both_ways {
+            out.push((t[r - 1..].to_vec(), t.to_vec()));
+            out.push((unit(0), unit(r - 1)));
+            out.push((unit(r - 1), unit(0)));
+            if r > 2 { out.push((unit(r / 2), t[1..].to_vec())); let mut u = unit(0); u[r - 1] = 1; out.push((u, unit(r / 2))); }
+        }
+    } else if both_ways { out.push((vec![1], t.to_vec())); }
+    out
+}
+fn const_tok<N: Elem>(v: f64) -> String { N::t(v).tok() }
+/// the constants of the value-relation stream in the domain `d` of an operand: identity / absorbing elements, sign, NaN, -0.0, limits
+fn rel_consts<N: Elem>(d: Dom) -> Vec<N> {
+    let mut v: Vec<N> = match d {
+        Dom::Shift => vec![N::z(), N::u(), N::t(2.0), N::t(7.0)],
+        Dom::Exp => vec![N::z(), N::u(), N::t(2.0), N::t(-1.0)],
+        Dom::Small => vec![N::z(), N::u(), N::t(2.0), N::t(-1.0), N::t(-0.0), N::t(60.0)],
+        Dom::General | Dom::Divisor => {
+            let mut v = vec![N::z(), N::u(), N::t(2.0), N::t(-1.0), N::t(-0.0), N::t(0.5), N::t(f64::NAN), N::t(f64::INFINITY)];
+            // the largest and the smallest value of the pool (the limits of the type)
+            let pool = N::pool_y(Dom::General);
+            if let Some(m) = pool.iter().copied().filter(|x| !x.f().is_nan()).max_by(|x, y| x.f().partial_cmp(&y.f()).unwrap()) { v.push(m); }
+            if let Some(m) = pool.iter().copied().filter(|x| !x.f().is_nan()).min_by(|x, y| x.f().partial_cmp(&y.f()).unwrap()) { v.push(m); }
+            v
+        }
+    };
+    let mut out: Vec<N> = vec![];
+    for x in v.drain(..) { if !out.iter().any(|o| o.key() == x.key()) { out.push(x); } }
+    out
+}
+/// value relations random data never has, one op x one element type: constant operands on either / both sides (a constant zero
+/// divisor is a refusal), constant but for the last element, +0.0 / -0.0 mixtures, operands equal under == but not bit-identical
+fn rel_cases<N: Elem>(oi: &OpInfo, ty: &str, full: bool, out: &mut dyn FnMut(String)) {
+    let da = if oi.dom == Dom::Small { Dom::Small } else { Dom::General };
+    let db = oi.dom;
+    let (ca, cb) = (rel_consts::<N>(da), rel_consts::<N>(db));
+    let pairs: Vec<(Vec<usize>, Vec<usize>)> = vec![(vec![4], vec![4]), (vec![2, 3], vec![2, 3]), (vec![2, 3], vec![3]), (vec![2, 3], vec![2, 1]), (vec![3], vec![2, 3]), (vec![2, 1], vec![1, 3]),
+        (vec![5], vec![1]), (vec![1], vec![5]), (vec![2, 2, 2], vec![2, 1, 2]), (vec![17, 16], vec![16]), (vec![64], vec![64]), (vec![1030], vec![1030])];
+    let line = |va: &[N], sa: &[usize], vb: &[N], sb: &[usize]| format!("{} {} {} {} {}", oi.name, oi.pat, ty, show_vals(sa, va), show_vals(sb, vb));
+    let zeros = |n: usize, salt: u64, flip: bool| -> Vec<N> { (0..n).map(|k| N::t(if (mix64(k as u64, salt) & 1 == 0) != flip { 0.0 } else { -0.0 })).collect() };
+    for (pi, (sa, sb)) in pairs.iter().enumerate() {
+        let (na, nb): (usize, usize) = (sa.iter().product(), sb.iter().product());
+        let (big, very) = (na.max(nb) > 100, na.max(nb) > 1000);
+        let mut rng = Rng::new(hash_str(&format!("rel|{}|{}|{}", oi.name, ty, pi)));
+        let (va, vb) = (draw_y::<N>(&mut rng, da, na), draw_y::<N>(&mut rng, db, nb));
+        // the constant argument / receiver / both
+        let skip = |ci: usize, n: usize| if very { ci != pi % n } else { big && !full && ci % 3 != pi % 3 };
+        for (ci, &c) in cb.iter().enumerate() { if skip(ci, cb.len()) { continue; } out(line(&va, sa, &vec![c; nb], sb)); }
+        for (ci, &c) in ca.iter().enumerate() { if skip(ci, ca.len()) { continue; } out(line(&vec![c; na], sa, &vb, sb)); }
+        for (ci, &c) in ca.iter().enumerate() {
+            if big { continue; }
+            let d1 = cb[ci % cb.len()]; let d2 = cb[(ci + 1) % cb.len()];
+            out(line(&vec![c; na], sa, &vec![d1; nb], sb));
+            if full || ci % 2 == pi % 2 { out(line(&vec![c; na], sa, &vec![d2; nb], sb)); }
+        }
+        // constant but for the last element (an all-equal test that samples)
+        if nb > 1 { let mut w = vec![cb[pi % cb.len()]; nb]; w[nb - 1] = vb[nb - 1]; out(line(&va, sa, &w, sb)); }
+        if na > 1 && !very { let mut w = vec![ca[pi % ca.len()]; na]; w[na - 1] = va[na - 1]; out(line(&w, sa, &vb, sb)); }
+        // zeros of both signs: as the receiver, as the argument (division family: a refusal), on both sides with opposite signs
+        // at every position (equal under ==, no bit pattern in common); integers: plain zeros
+        {
+            if !very { out(line(&zeros(na, 1, false), sa, &vb, sb)); }
+            if !very { out(line(&va, sa, &zeros(nb, 2, false), sb)); }
+            if sa == sb { out(line(&zeros(na, 3, false), sa, &zeros(nb, 3, true), sb)); if !very { out(line(&zeros(na, 4, false), sa, &zeros(nb, 4, false), sb)); } }
+        }
+        // operands equal under == everywhere but written separately, with the zeros among them of opposite sign
+        if sa == sb && da == db && !very {
+            let mut wa = va.clone(); let mut wb = va.clone();
+            for k in 0..na { if k % 3 == 0 { wa[k] = N::t(0.0); wb[k] = N::t(-0.0); } }
+            out(line(&wa, sa, &wb, sb));
+        }
+    }
+}
+
+/// FRAMEWORK.md robustness streams, part 3: (11) giant sizes, (13) value relations.  (12) element layout: the operations are defined
+/// for the ten primitive numeric types only (1, 2, 4, 8 bytes: all of them run at giant size in rotation); (15): no operation of the
+/// family takes a coordinate or a count.
+fn gen_part3(thorough: bool, seed: u64, out: &mut dyn FnMut(String)) {
+    // quick: targets just above 2^20 elements (1 048 580 .. 1 065 023: ranks 1..4, extents that are not multiples of 64, an axis above
+    // 65 536 / 2^17 in leading, inner and trailing position); thorough: these and lib giant_shapes() (up to 2.2 million)
+    let mut giants: Vec<Vec<usize>> = vec![vec![1 << 20 | 5], vec![3, 349_527], vec![349_527, 3], vec![1031, 1033], vec![2, 131_073, 4], vec![65, 129, 127], vec![600, 2, 875], vec![5, 52_429, 4], vec![3, 5, 7, 9987]];
+    if thorough { giants.extend(giant_shapes()); }
+    let s0 = seed as usize;
+    let r_family = |oi: &OpInfo| matches!(oi.pat, "R" | "RA");
+    // ---- (xix) giant operands, every op: equally shaped (the zip arm), and stretched (the gather arm) with the variant, the target
+    //      and the element type in rotation over ops and seeds; fills: varied x varied, a constant / all-zeros-of-both-signs side
+    let fills: [(&str, &str); 4] = [("v0", "v1"), ("v0", "C1"), ("C2", "v1"), ("m5", "v1")];
+    let fill_of = |ty: &str, f: &str| -> String { if let Some(v) = f.strip_prefix('C') { let x: f64 = v.parse().unwrap(); format!("c{}", by_ty!(ty, const_tok, x)) } else { f.to_string() } };
+    for (oi_k, oi) in OPS.iter().enumerate() {
+        let ta = types_all(oi);
+        let reps = if thorough { 3 } else { 1 };
+        for rep in 0..reps {
+            let t = &giants[(oi_k * 3 + s0 + rep * 10) % giants.len()];
+            let ty = ta[(oi_k + s0 + rep) % ta.len()];
+            let (fa, fb) = fills[(oi_k + s0 + rep) % 4];
+            out(gline(oi, ty, t, t, &fill_of(ty, fa), &fill_of(ty, fb)));
+            let t2 = &giants[(oi_k * 3 + s0 + rep * 10 + 4) % giants.len()];
+            let vars = giant_pairs(t2, !r_family(oi));
+            let n_var = if thorough { 2 } else { 1 };
+            for j in 0..n_var {
+                let (sa, sb) = &vars[(oi_k + s0 * 5 + rep + j * 3) % vars.len()];
+                let ty = ta[(oi_k / 2 + s0 + rep + j) % ta.len()];
+                let (fa, fb) = fills[(oi_k / 3 + s0 + rep + j) % 4];
+                out(gline(oi, ty, sa, sb, &fill_of(ty, fa), &fill_of(ty, fb)));
+            }
+        }
+    }
+    // refusals at giant size: the zero (+0.0 / -0.0) at the last / a middle / the first position of a giant divisor, an all-zero
+    // divisor of both signs; clashing shapes; a receiver that would have to be stretched (receiver-shaped family)
+    for (k, name) in DIVISION_FAMILY.iter().enumerate() {
+        let oi = info(name).unwrap();
+        let ta = types_all(oi);
+        let t = &giants[(k + s0) % giants.len()];
+        let n: usize = t.iter().product();
+        let ty = ta[(k + s0) % ta.len()];
+        let pos = [n - 1, n / 2 + 1, 0][(k + s0) % 3];
+        out(gline(oi, ty, t, t, "v0", &format!("z{pos}{}", if k % 2 == 0 { "n" } else { "p" })));
+        let last = &t[t.len() - 1..];
+        out(gline(oi, ta[(k + s0 + 1) % ta.len()], t, last, "v0", &format!("z{}{}", last[0] - 1, if k % 2 == 0 { "p" } else { "n" })));
+        if thorough || k % 2 == s0 % 2 { out(gline(oi, ta[(k + s0 + 2) % ta.len()], t, t, "v0", "m7")); }
+    }
+    for (oi_k, oi) in OPS.iter().enumerate() {
+        if !thorough && (oi_k + s0) % 4 != 0 { continue; }
+        let ta = types_all(oi);
+        let t = &giants[(oi_k + s0 + 2) % giants.len()];
+        let ty = ta[(oi_k + s0) % ta.len()];
+        let mut clash = t.clone(); let r = clash.len(); clash[r - 1] += 1;
+        out(gline(oi, ty, t, &clash[r - 1..], "v0", "v1"));
+        if r_family(oi) && t.len() > 1 { out(gline(oi, ty, &t[1..], t, "v0", "v1")); }
+    }
+    // clip at giant size: one-element / lane / full bounds
+    let all10 = ["i32", "i64", "u8", "f64", "i8", "i16", "u16", "u32", "u64", "f32"];
+    for j in 0..(if thorough { 8 } else { 2 }) {
+        let t = &giants[(s0 + j * 3 + 1) % giants.len()];
+        let ty = all10[(s0 + j) % 10];
+        let r = t.len();
+        let unit_last = { let mut u = t.clone(); u[r - 1] = 1; u };
+        let (sl, sh) = match (s0 + j) % 3 { 0 => (vec![1], t[r - 1..].to_vec()), 1 => (t.clone(), vec![1]), _ => (unit_last, t[r - 1..].to_vec()) };
+        out(format!("g clip R3 {ty} {} {} {} v0 v1 v2", show_list(t), show_list(&sl), show_list(&sh)));
+    }
+    // a length above 2^24 (where `len as f32` stops being exact): one-byte elements, equally shaped operands (thorough: three ops)
+    let over24 = [(1usize << 24) + 3];
+    for j in 0..(if thorough { 3 } else { 1 }) {
+        let oi = info(["bitwise_and", "add", "maximum", "subtract", "minimum", "bitwise_xor"][(s0 + j * 2) % 6]).unwrap();
+        out(gline(oi, ["u8", "i8"][(s0 + j) % 2], &over24, &over24, "v0", "v1"));
+    }
+
+    // ---- (xx) value relations: every op x (quick: one float and one integer type in rotation; thorough: every type)
+    for (oi_k, oi) in OPS.iter().enumerate() {
+        let ta = types_all(oi);
+        let (floats, ints): (Vec<&str>, Vec<&str>) = ta.iter().partition(|t| matches!(**t, "f64" | "f32"));
+        let mut tys: Vec<&str> = if thorough { ta.clone() } else { vec![floats[(oi_k + s0) % floats.len()]] };
+        if !thorough && !ints.is_empty() { tys.push(ints[(oi_k + s0) % ints.len()]); }
+        for ty in tys { by_ty!(ty, rel_cases, oi, ty, thorough, out); }
+    }
+    // clip: constant bounds (equal to each other, to the receiver), a constant receiver, zeros of both signs
+    for (ti, ty) in all10.iter().enumerate() {
+        if !thorough && (ti + s0) % 3 != 0 { continue; }
+        by_ty!(*ty, rel_clip, ty, out);
+    }
+}
+fn rel_clip<N: Elem>(ty: &str, out: &mut dyn FnMut(String)) {
+    let cs = rel_consts::<N>(Dom::General);
+    let mut rng = Rng::new(hash_str(&format!("relclip|{ty}")));
+    for (sa, sl, sh) in [(vec![2usize, 3], vec![3usize], vec![1usize]), (vec![4], vec![4], vec![4]), (vec![2, 3], vec![2, 1], vec![2, 3])] {
+        let cnt = |s: &Vec<usize>| s.iter().product::<usize>();
+        let va = draw_y::<N>(&mut rng, Dom::General, cnt(&sa));
+        for (ci, &c) in cs.iter().enumerate() {
+            let d = cs[(ci + 1) % cs.len()];
+            out(format!("clip R3 {ty} {} {} {}", show_vals(&sa, &va), show_vals(&sl, &vec![c; cnt(&sl)]), show_vals(&sh, &vec![c; cnt(&sh)])));
+            out(format!("clip R3 {ty} {} {} {}", show_vals(&sa, &va), show_vals(&sl, &vec![c; cnt(&sl)]), show_vals(&sh, &vec![d; cnt(&sh)])));
+            out(format!("clip R3 {ty} {} {} {}", show_vals(&sa, &vec![c; cnt(&sa)]), show_vals(&sl, &vec![d; cnt(&sl)]), show_vals(&sh, &vec![c; cnt(&sh)])));
+        }
+        let z = |n: usize, salt: u64| -> Vec<N> { (0..n).map(|k| N::t(if mix64(k as u64, salt) & 1 == 0 { 0.0 } else { -0.0 })).collect() };
+        out(format!("clip R3 {ty} {} {} {}", show_vals(&sa, &z(cnt(&sa), 1)), show_vals(&sl, &z(cnt(&sl), 2)), show_vals(&sh, &z(cnt(&sh), 3))));
+    }
+}
+
 /// non-trivial: a case of the positional streams whose operands are broadcast-compatible with some operand really
 /// stretched along an axis of result length > 1, or a refusal case (zero in the divisor of a division-family op)
 fn nontrivial(op: &str, args: &[&str]) -> bool {
     if op == "seq" { return args.split(|&a| a == "/").any(|p| !p.is_empty() && nontrivial(p[0], &p[1..])); }
     let shape_of = |s: &str| -> Vec<usize> { s.split_once(':').map_or(vec![], |(sh, _)| parse_usize_list(sh)) };
+    if op == "oracle_report" { return false; }
+    if op == "g" {
+        // giant: shapes are written plainly; a refusal by a zero written into the divisor counts like in the small streams
+        if args.len() < 7 { return false; }
+        if args[0] != "clip" && DIVISION_FAMILY.contains(&args[0]) && (args[6].starts_with('z') || args[6].starts_with('m')) { return true; }
+        let (sa, sb) = (parse_usize_list(args[3]), parse_usize_list(args[4]));
+        return bshape(&sa, &sb).map_or(false, |r| { let n = r.len(); (0..n).any(|k| { let d = |s: &Vec<usize>| if k < s.len() { s[s.len() - 1 - k] } else { 1 }; r[n - 1 - k] > 1 && (d(&sa) == 1 || d(&sb) == 1) }) });
+    }
     let (sa, sb, bvals) = match op {
         "comm" => return args.len() == 5 && shape_of(args[3]).iter().product::<usize>() > 1,
         "clip" => { if args.len() != 5 { return false; } (shape_of(args[2]), shape_of(args[3]), "") }
@@ -1210,6 +1668,6 @@ fn nontrivial(op: &str, args: &[&str]) -> bool {
 }
 
 fn main() {
-    harness_main(Spec { prop: "C04", gen, exec, nontrivial, hang_secs: 30,
-        rule: "31 public two-operand ops (table at the top of harness/src/bin/c04.rs: patterns B, G, GM, IB, R, RA) + clip (R3). Exhaustive: every op x every ordered pair of shapes rank<=3 len<=3 (39^2 = 1521, compatible or not) x element types i32,i64,u8,f64 in both tiers (atan2/hypot are not defined for u8; copysign/nextafter/ldexp f64 only); values drawn without repetition from per-type pools (small ints, ints near +-2^31 and 2^53, +-0.0, subnormals, +-inf, NaN, large finite), divisors never zero, shift counts 0..7, gcd/lcm operands |x|<=60. Streams: corpus; clip with random bound shapes; commutativity op(a,b)==op(b,a) on the code for the 14 commutative ops (all equal shapes + sampled compatible pairs); refusal (a zero, for f64 +0.0 or -0.0, written into the divisor array of the 6 division-family ops); seeded random rank<=4 len<=4 mostly compatible; zero-length operands. Oracle per output position p with model sources (i,j): out[p] == kernel(a[i],b[j]) bit-exactly (NaN canonicalised), kernel = formula written natively in the harness (own casts, std f64 methods; every op) AND the same op on the one-element arrays [a[i]],[b[j]]. ROBUSTNESS STREAMS: every case is executed on three receivers - a.op(&b), Ok(a).op(&b) through impl for Result<Array<N>,ArrayError> (bit-identical answer required) and Err(_).op(&b) (must stay an error); element types i8,i16,u16,u32,u64,f32 added (every op x the 1521 shape pairs: all in thorough, one new type per pair in rotation + all on the rank<=2 pairs in quick) with values at the limits of each type (saturation of the f64 round trip), extended pools for i32/i64/f64 (beyond 2^53, at i64::MIN/MAX, around 2^63/2^64/f32::MAX, divisors below f64::EPSILON / f32 subnormal); sizes: every op x big_shapes() (axis lengths 7..17, > 256 / 1024 / 4096 elements) with the argument, the receiver or both operands stretched; zero-length: every op x zero_shapes() in either position; refusal with the zero (+0.0/-0.0) at the last/middle/first position of divisors up to 4900 elements for every element type; clip on all 10 types, big and zero-length receivers; commutativity on the new types and on big shapes; seeded random on all types with one long axis. PART 2: aliasing - every op x every element type with one array text on both sides (NaN, +-inf, +-0.0, f64::MAX, integer limits inside; shapes rank<=2 len<=3, [7], [3,3,3], [17,16], rank 5, [16385]): additionally a.op(&a) with the SAME OBJECT, bit-identical answer required (ALIAS-DIVERGENCE); hidden state - `seq` lines (several calls on one thread, each compared with the model): operand shapes colliding under h*m+dim for m = 31, 33, 37, 131, 257 ([2,1] x [1,1+m] and rank-3 forms) as the operands of one call in both orders, as clip bounds, and as the arguments of consecutive calls on one receiver; transposed / equal-count shapes; same shapes with the first operand rotated or one value replaced by its neighbour; refused (incompatible shapes, zero in the divisor) then accepted calls; seeded random interleavings of ops / types / shapes; an A-B-A re-run of the previous case after EVERY case of up to 3000 characters (STATE-DIVERGENCE); huge - every op on equally shaped operands of 16 385 / 16 899 / 20 000 elements ([100,200], [16385], [129,131], [20000]) and on stretched operands up to 140 000 elements ([130,130] x [130,1], [40,30,30] x [40,1,30], [2,70000] x [2,1], [70000,2] x [2], [130,1] x [1,130]), types in rotation, comm and clip on huge shapes, one op per family per run on [70000] x [2,1] / [2,70000] x [70000] (an unstretched axis above 65 536); every axis length 1..300 in a non-leading position; ranks 5..8; edge values (f64::MAX and neighbours, f32::MAX, largest subnormal, 1 -+ EPSILON). distinct = distinct case lines; non-trivial = compatible shapes with some operand stretched along an axis of result length > 1, or a refusal case, or a comm case with more than one element" });
+    harness_main(Spec { prop: "C04", gen, exec, nontrivial, hang_secs: 90,
+        rule: "31 public two-operand ops (table at the top of harness/src/bin/c04.rs: patterns B, G, GM, IB, R, RA) + clip (R3). Exhaustive: every op x every ordered pair of shapes rank<=3 len<=3 (39^2 = 1521, compatible or not) x element types i32,i64,u8,f64 in both tiers (atan2/hypot are not defined for u8; copysign/nextafter/ldexp f64 only); values drawn without repetition from per-type pools (small ints, ints near +-2^31 and 2^53, +-0.0, subnormals, +-inf, NaN, large finite), divisors never zero, shift counts 0..7, gcd/lcm operands |x|<=60. Streams: corpus; clip with random bound shapes; commutativity op(a,b)==op(b,a) on the code for the 14 commutative ops (all equal shapes + sampled compatible pairs); refusal (a zero, for f64 +0.0 or -0.0, written into the divisor array of the 6 division-family ops); seeded random rank<=4 len<=4 mostly compatible; zero-length operands. Oracle per output position p with model sources (i,j): out[p] == kernel(a[i],b[j]) bit-exactly (NaN canonicalised), kernel = formula written natively in the harness (own casts, std f64 methods; every op) AND the same op on the one-element arrays [a[i]],[b[j]]. ROBUSTNESS STREAMS: every case is executed on three receivers - a.op(&b), Ok(a).op(&b) through impl for Result<Array<N>,ArrayError> (bit-identical answer required) and Err(_).op(&b) (must stay an error); element types i8,i16,u16,u32,u64,f32 added (every op x the 1521 shape pairs: all in thorough, one new type per pair in rotation + all on the rank<=2 pairs in quick) with values at the limits of each type (saturation of the f64 round trip), extended pools for i32/i64/f64 (beyond 2^53, at i64::MIN/MAX, around 2^63/2^64/f32::MAX, divisors below f64::EPSILON / f32 subnormal); sizes: every op x big_shapes() (axis lengths 7..17, > 256 / 1024 / 4096 elements) with the argument, the receiver or both operands stretched; zero-length: every op x zero_shapes() in either position; refusal with the zero (+0.0/-0.0) at the last/middle/first position of divisors up to 4900 elements for every element type; clip on all 10 types, big and zero-length receivers; commutativity on the new types and on big shapes; seeded random on all types with one long axis. PART 2: aliasing - every op x every element type with one array text on both sides (NaN, +-inf, +-0.0, f64::MAX, integer limits inside; shapes rank<=2 len<=3, [7], [3,3,3], [17,16], rank 5, [16385]): additionally a.op(&a) with the SAME OBJECT, bit-identical answer required (ALIAS-DIVERGENCE); hidden state - `seq` lines (several calls on one thread, each compared with the model): operand shapes colliding under h*m+dim for m = 31, 33, 37, 131, 257 ([2,1] x [1,1+m] and rank-3 forms) as the operands of one call in both orders, as clip bounds, and as the arguments of consecutive calls on one receiver; transposed / equal-count shapes; same shapes with the first operand rotated or one value replaced by its neighbour; refused (incompatible shapes, zero in the divisor) then accepted calls; seeded random interleavings of ops / types / shapes; an A-B-A re-run of the previous case after EVERY case of up to 3000 characters (STATE-DIVERGENCE); huge - every op on equally shaped operands of 16 385 / 16 899 / 20 000 elements ([100,200], [16385], [129,131], [20000]) and on stretched operands up to 140 000 elements ([130,130] x [130,1], [40,30,30] x [40,1,30], [2,70000] x [2,1], [70000,2] x [2], [130,1] x [1,130]), types in rotation, comm and clip on huge shapes, one op per family per run on [70000] x [2,1] / [2,70000] x [70000] (an unstretched axis above 65 536); every axis length 1..300 in a non-leading position; ranks 5..8; edge values (f64::MAX and neighbours, f32::MAX, largest subnormal, 1 -+ EPSILON). PART 3: a harness-native coordinate formula (result shape + flat source index of every operand at every result position, plain Rust) is compared with the FULL model answer on every positional case of the run (count in the oracle_report sample; the run fails below 100000); giant operands (`g` lines, named by shape + fill rule and built by the harness; the model answers the result shape / the refusal, the values are compared in place with that formula and the native scalar kernel at EVERY position and with the one-element-array kernel at sampled positions): every op on equally shaped operands and on one stretched pair (argument one element / without the leading axis / with a unit first, middle or last axis / a lane; for the both-stretch family also the receiver stretched and complementary unit axes) of 1 048 580 .. 1 065 023 result elements (ranks 1..4, extents not multiples of 64, an axis above 2^17 in every position; thorough: 3 targets x (equal + 2 stretched) per op, up to 2.2 million elements), element types of 1 / 2 / 4 / 8 bytes and fills (varied, constant, zeros of both signs) in rotation, division refusals with the zero at the last / middle / first position of a giant divisor, clashing giant shapes, clip at giant size, one op on 2^24+3 one-byte elements (thorough: three); chained receiver on every third giant case; value relations: every op x one float + one integer type (thorough: every type) x 12 shape pairs with a constant argument / receiver / both (0, 1, 2, -1, -0.0, 0.5, NaN, inf, the limits of the type; a constant zero divisor is a refusal), constant but for the last element, +0.0/-0.0 mixtures on either side, on both sides with opposite signs at every position (== but no bit pattern in common), separately written equal operands whose zeros differ in sign; clip with constant bounds / receiver. Largest explored size: 2.2 million result elements (thorough; quick 1.07 million), one-byte elements 2^24+3. distinct = distinct case lines; non-trivial = compatible shapes with some operand stretched along an axis of result length > 1, or a refusal case, or a comm case with more than one element" });
 }
